@@ -1,6 +1,7 @@
 import Np.Proofs.Call
 import Np.Model.CallArr
 import Mathlib.Algebra.MvPolynomial.Monad
+import Np.Proofs.CallArr
 /-! C02 — evaluation and substitution compute the polynomial's value: property theorems -/
 namespace Np.Props.C02
 open MvPolynomial
@@ -59,4 +60,30 @@ end bind
 
 /-- non-vacuity: (q0²q1 + 3)(q0=2, q1=-1) = -1 -/
 example : evalTerms (fun n => if n = 0 then (2 : Int) else -1) [0, 1] [([2, 1], 1), ([0, 0], 3)] = -1 := by decide
+
+/-! ### the array-level `call` of the model (what the driver executes) -/
+section arrays
+variable {R : Type} [CommRing R] [BEq R] [LawfulBEq R] {n m : Nat}
+
+/-- **C02 on arrays, against Mathlib**: for a well-formed polynomial array `p` (flat size `n`) and one well-formed
+parameter per indeterminate (flat size `m`, i.e. already broadcast against each other), the executable `callPoly`
+succeeds, its result is well-formed, and *every* position `(i, j)` of the `n × m` result is Mathlib's substitution
+`bind₁` of the parameters' elements at `j` into element `i` of `p` — every number of terms, indeterminates, every
+shape, both retain flags -/
+theorem call_array_is_bind₁ (rc rn : Bool) (p : Poly (Vec R n)) (params : List (Poly (Vec R m)))
+    (hw : WF p) (hp : ∀ q ∈ params, WF q) (hlen : params.length = p.names.length) :
+    ∃ out, callPoly rc rn p params = some out ∧ WF out ∧
+      ∀ (i : Fin n) (j : Fin m) (k : Fin (n * m)), k.val = i.val * m + j.val →
+        denAt out k = bind₁ (substOf j p.names params) (denAt p i) :=
+  callPoly_bind₁ rc rn p params hw hp hlen
+
+/-- the sum of products which `call` forms for position `(i, j)` is `eval₂` of element `i` -/
+theorem call_sum_is_eval₂ (p : Poly (Vec R n)) (params : List (Poly (Vec R m))) (hn : p.names.Nodup)
+    (hlen : params.length = p.names.length) (i : Fin n) (j : Fin m) :
+    (p.terms.map fun t => C (t.2.get i) *
+        ((List.zip params t.1).map fun qe => denAt qe.1 j ^ qe.2).prod).sum
+      = eval₂ C (substOf j p.names params) (denAt p i) :=
+  call_is_eval₂ p params hn hlen i j
+end arrays
+
 end Np.Props.C02
